@@ -551,7 +551,15 @@ Proof. intros Hf. unfold cview, ci_upd. cbn [m_conns set_m_conns]. apply map_upd
 Lemma cview_track_op cfg m o ob : cview (track_op cfg m o ob) = cview m.
 Proof.
   destruct o; cbn [track_op]; try reflexivity.
-  - destruct (nth_error (m_reqs m) r) as [x|]; [|reflexivity]. destruct (ri_stat x); reflexivity.
+  - destruct (nth_error (m_reqs m) r) as [x|]; [|reflexivity].
+    assert (Hb : forall c, cview (match nth_error (m_conns m) c with
+                                  | Some y => if ci_share y then m else ci_upd (set_ci_back (m_i m)) c m
+                                  | None => m end) = cview m).
+    { intros c. destruct (nth_error (m_conns m) c) as [y|]; [|reflexivity].
+      destruct (ci_share y); [reflexivity|]. apply cview_ci_upd. reflexivity. }
+    destruct (ri_stat x); try reflexivity;
+      match goal with |- cview (ri_upd _ _ ?M) = _ => change (cview M = cview m) end;
+      try reflexivity; destruct (ri_popx x); try reflexivity; apply Hb.
   - destruct (holder_conn m r); [|reflexivity]. apply cview_ci_upd. reflexivity.
   - apply cview_ci_upd. reflexivity.
 Qed.
